@@ -2,6 +2,7 @@
 REG = {}
 
 REG["C24"] = dict(
+    level_text='Proof for every uint64 value and every parameter list: Append/Len/AppendWithLen/Read mirror internal/quicvarint with explicit shifts and narrowing; round trip, minimality, exact width and refusal by panic above 2^62 are theorems by case analysis on the width (no enumeration); TransportParameters.Marshal parses back entry by entry for any list. Tied to the code by byte-exact correspondence on boundary and random values on every run.',
     runner="C24", corr=["Corr.C24Corr"], n=dict(quick=300, thorough=6000),
     rule="boundary values (0,63,64,16383,16384,2^30+-1,2^62+-1,2^64-1) plus random values of random bit width; "
          "AppendWithLen over widths {1,2,4,8} and one invalid width; Read on random/truncated byte strings; random "
@@ -12,6 +13,7 @@ REG["C24"] = dict(
 )
 
 REG["C36"] = dict(
+    level_text="Proof by refinement: the concrete cache (recency list + index, slot reuse on eviction) mirrors lruSessionCache.Put/Get; an invariant (size <= capacity, unique keys, index agrees with list) holds for every history by induction and every output equals the abstract bounded LRU map's. Partial: that each operation holds the mutex for its whole body (so concurrent histories linearize) is observed by porcupine-checked concurrent runs under the race detector, not proved.",
     runner="C36", corr=["Corr.C36Corr"], n=dict(quick=400, thorough=8000), race_suite="C36race",
     rule="random Put/Get/Put-nil histories (2..31 ops) over 2..7 keys and capacities 1..5 (and <1 = default 64), a fixed "
          "corpus first; plus 4-goroutine concurrent histories checked for linearizability (porcupine) against a reference "
@@ -37,6 +39,7 @@ REG["C30"] = dict(
 )
 
 REG["C29"] = dict(
+    level_text='Proof over a pure model of Roller.Dial (configured ids, an arbitrary permutation standing for the shuffle, remembered id, per-attempt TCP and handshake outcomes): working id first, each id at most once, first accepted attempt returned and recorded, TCP error returned at once - for all inputs. Partial: the shuffle, UClient/SetSNI and data-race freedom are observed (loopback servers recognising fingerprints, race detector), not proved.',
     runner="C29", corr=["Corr.C29Corr"], n=dict(quick=480, thorough=4000), race_suite="C29race",
     rule="local TLS servers over loopback TCP that let only chosen fingerprints (recognised from the parsed ClientHello) "
          "complete; Rollers over 2..5 of up to 16 distinguishable ClientHelloIDs (incl. seeded randomized), optional "
